@@ -168,6 +168,30 @@ func (w *World) Store2(i int, dir string, conc int, mutateAt int, script []SOp, 
 		pnc any
 	}
 	ch := make(chan res, 1)
+	// mutateAt < 0: the script runs in its own goroutine, free-running against the backup (no hand-over point)
+	freeDone := make(chan struct{})
+	if mutateAt < 0 && len(script) > 0 {
+		go func() {
+			defer close(freeDone)
+			defer func() {
+				if r := recover(); r != nil {
+					mu.Lock()
+					defer mu.Unlock()
+					if d, ok := r.(*deferredFailure); ok {
+						deferred = d
+						return
+					}
+					deferred = &deferredFailure{sig: "panic-in-mutator", msg: fmt.Sprint(r)}
+				}
+			}()
+			w.inCallback = true
+			defer func() { w.inCallback = false }()
+			w.runScript(script)
+			w.flag("mutated-during-backup")
+		}()
+	} else {
+		close(freeDone)
+	}
 	go func() {
 		var r res
 		defer func() {
@@ -184,6 +208,7 @@ func (w *World) Store2(i int, dir string, conc int, mutateAt int, script []SOp, 
 	case <-time.After(waitLimit() * 2):
 		w.Failf("store-hang", "StoreToDisk did not return within the watchdog")
 	}
+	<-freeDone
 	if !w.cfg.Delta {
 		w.pinned[i]--
 		releaseModel()
